@@ -326,6 +326,81 @@ Section EthRoute.
   Definition outcomes_eth_event {W O} (rule : N -> N -> N) := outcomes_event (W:=W) (O:=O) (list_eq_dec N.eq_dec) auth_eth tx_nonce rule.
   Definition final_eth_event {W O} (rule : N -> N -> N) := final_event (W:=W) (O:=O) (list_eq_dec N.eq_dec) auth_eth tx_nonce rule.
   Definition executed_eth_event {W O} (rule : N -> N -> N) := executed_event (W:=W) (O:=O) (list_eq_dec N.eq_dec) auth_eth tx_nonce rule.
+
+  (** ** the message as it travels: Data, and the self-reported Hash and From
+
+      A MsgEthereumTx ([emsg], TxCodec/EthTxModel.v) carries the TxData ([Data])
+      and two texts anybody can write: [Hash] and [From].
+      - MsgEthereumTx.ValidateBasic (baseapp.validateBasicTxMsgs, CheckTx and
+        DeliverTx alike) converts Data ([AsTransaction]), recomputes the hash of
+        the conversion and refuses a message whose [Hash] is any other text;
+      - EthValidateBasicDecorator refuses a message whose [From] is not empty
+        (EthSigVerificationDecorator writes the recovered sender there later).
+      Everything that follows -- the sender recovery, the comparison of the nonce
+      with the sequence, the fee, CanTransfer, ApplyTransaction -- works on
+      [as_tx m], the conversion of [Data] made afresh at every use: nothing is
+      looked up by the Hash or From text, nothing about a message seen earlier
+      is remembered.  So [Hash] and [From] can only make a message be refused. *)
+  Definition claims_ok (m : emsg) (tx : eth_tx) : bool :=
+    String.eqb (m_hash m) (hash_hex (tx_hash hash tx)) && String.eqb (m_from m) EmptyString.
+  Definition auth_emsg (st : bytes -> N) (m : emsg) : option bytes :=
+    match as_tx m with
+    | Some tx => if claims_ok m tx then auth_eth st tx else None
+    | None => None
+    end.
+  Definition emsg_nonce (m : emsg) : N := match as_tx m with Some tx => tx_nonce tx | None => 0%N end.
+
+  (** one Cosmos transaction carrying a list of MsgEthereumTx, as messages *)
+  Definition step_emsg_tx := step_tx (list_eq_dec N.eq_dec) auth_emsg emsg_nonce.
+  Definition outcomes_emsg_tx := outcomes_tx (list_eq_dec N.eq_dec) auth_emsg emsg_nonce.
+  Definition final_emsg_tx := final_tx (list_eq_dec N.eq_dec) auth_emsg emsg_nonce.
+  Definition executed_emsg := executed_at (list_eq_dec N.eq_dec) auth_emsg emsg_nonce.
+
+  (** NOT the code of /repo: the same route with a process-wide memo "Hash text
+      -> converted transaction" in front of [AsTransaction] (an optimisation one
+      might add: the conversion is made about ten times per message).  The memo
+      is filled by ValidateBasic after its hash check and consulted, by the
+      message's SELF-REPORTED [Hash], before Data is converted -- also by that
+      very hash check.  It belongs to the process, not to the state: it survives
+      refused transactions.  The nonce comparison and the sequence increment read
+      Data ([emsg_nonce]); sender, and what executes, come through the memo.  One
+      message per transaction is enough to state what this breaks
+      ([memo_replays_refuted] in SigProofs.v): the outcome names the account AND
+      the transaction that executes. *)
+  Definition memo := list (string * eth_tx).
+  Definition as_tx_memo (mm : memo) (m : emsg) : option eth_tx :=
+    match find (fun p => String.eqb (fst p) (m_hash m)) mm with
+    | Some p => Some (snd p)
+    | None => as_tx m
+    end.
+  Definition validate_memo (mm : memo) (m : emsg) : option memo :=
+    match as_tx m, as_tx_memo mm m with
+    | Some _, Some tx => if claims_ok m tx then Some ((m_hash m, tx) :: mm) else None
+    | _, _ => None
+    end.
+  Definition step_memo (s : (bytes -> N) * memo) (x : emsg * bool) : ((bytes -> N) * memo) * option (bytes * eth_tx) :=
+    let '(st, mm) := s in
+    let '(m, other_ok) := x in
+    match validate_memo mm m with
+    | None => (s, None)
+    | Some mm' =>
+        match as_tx_memo mm' m with
+        | Some tx =>
+            match auth_eth st tx with
+            | Some a =>
+                if (emsg_nonce m =? st a)%N && other_ok
+                then ((upd (list_eq_dec N.eq_dec) st a (st a + 1)%N, mm'), Some (a, tx))
+                else ((st, mm'), None)
+            | None => ((st, mm'), None)
+            end
+        | None => ((st, mm'), None)
+        end
+    end.
+  Fixpoint outcomes_memo (s : (bytes -> N) * memo) (h : list (emsg * bool)) : list (option (bytes * eth_tx)) :=
+    match h with
+    | [] => []
+    | x :: r => snd (step_memo s x) :: outcomes_memo (fst (step_memo s x)) r
+    end.
 End EthRoute.
 
 (** signing, for the positive direction: [sign k h] gives (r, s, recovery id) *)
@@ -399,12 +474,18 @@ Arguments sd_body {B}.
 
     Cryptography is not modelled, so a recorded submission carries what the
     cryptographic oracle said: for an Ethereum transaction the account
-    go-ethereum recovers under the transaction's OWN chain id; for a Cosmos /
+    go-ethereum recovers under the transaction's OWN chain id -- computed from
+    the message's Data, as are chain id and nonce --; for an Ethereum MESSAGE
+    whose self-reported fields the sender of the envelope may have written
+    ([SEthMsg]) in addition whether its Hash text is the hash go-ethereum
+    computes from Data ([hash_bound]) and whether its From text is empty: the
+    two facts [claims_ok] looks at; for a Cosmos /
     EIP-712 transaction the sign doc its signature was made over ([None] when
     the signature bytes were tampered with).  Accounts and bodies are interned
     as numbers by the harness. *)
 Inductive sub :=
 | SEth (is_protected : bool) (tx_chain : Z) (nonce : N) (recovered : option N)
+| SEthMsg (hash_bound from_empty : bool) (is_protected : bool) (tx_chain : Z) (nonce : N) (recovered : option N)
 | SCosmos (signer : N) (claimed_seq : N) (signed : option (@sign_doc N)) (body : N)
 | SEip712 (signer : N) (claimed_seq : N) (signed : option (@sign_doc N)) (body : N) (ext_chain : Z) (payer_is_signer : bool).
 
@@ -423,6 +504,11 @@ Definition auth_sub (nd : node) (st : N -> N) (s : sub) : option N :=
       if negb (c_allow_unprotected (n_cfg nd)) && negb prot then None
       else if prot && negb (txc =? c_eip155 (n_cfg nd))%Z then None
       else rec
+  | SEthMsg hash_bound from_empty prot txc _ rec =>
+      if negb (hash_bound && from_empty) then None
+      else if negb (c_allow_unprotected (n_cfg nd)) && negb prot then None
+      else if prot && negb (txc =? c_eip155 (n_cfg nd))%Z then None
+      else rec
   | SCosmos a _ signed body =>
       match signed with
       | Some d => if doc_eqb d (mk_doc (n_chain nd) (lookup (n_accnum nd) a) (st a) body) then Some a else None
@@ -438,7 +524,7 @@ Definition auth_sub (nd : node) (st : N -> N) (s : sub) : option N :=
   end.
 
 Definition sub_nonce (s : sub) : N :=
-  match s with SEth _ _ n _ => n | SCosmos _ n _ _ => n | SEip712 _ n _ _ _ _ => n end.
+  match s with SEth _ _ n _ => n | SEthMsg _ _ _ _ n _ => n | SCosmos _ n _ _ => n | SEip712 _ n _ _ _ _ => n end.
 
 Definition step_sub (nd : node) := step N.eq_dec (auth_sub nd) sub_nonce.
 (** a submission is a Cosmos transaction = a list of signed units: one for the
